@@ -93,6 +93,10 @@ def rv(x):
     raise TypeError(type(x))
 
 
+def sx_is_concrete_number(o):
+    return isinstance(o, (int, float, np.integer, np.floating, fractions.Fraction)) and not isinstance(o, bool)
+
+
 class _NonFinite(Exception):
     def __init__(self, x):
         self.x = x
@@ -229,6 +233,18 @@ class SymReal:
 
     def __abs__(self):
         return SymReal(z3.If(self.e >= 0, self.e, -self.e))
+
+    def __floordiv__(self, o):
+        """floor division by a concrete positive number (exact over the reals)"""
+        if sx_is_concrete_number(o) and o > 0:
+            return SymReal(z3.ToReal(z3.ToInt(self.e / rv(o))))
+        raise HarnessError("SymReal // non-constant")
+
+    def __mod__(self, o):
+        if sx_is_concrete_number(o) and o > 0:
+            q = z3.ToReal(z3.ToInt(self.e / rv(o)))
+            return SymReal(self.e - rv(o) * q)
+        raise HarnessError("SymReal % non-constant")
 
     def __hash__(self):
         return id(self)
